@@ -317,7 +317,7 @@ func (n *Normer) Norm(v ssa.Value) Poly {
 		return n.normCall(x)
 	case *ssa.Field:
 		st := x.X.Type().Underlying().(*types.Struct)
-		return pAtom(n.Norm(x.X).asAtom() + "." + st.Field(x.Field).Name())
+		return pAtom(n.Norm(x.X).asAtom() + "." + fname(st.Field(x.Field)))
 	case *ssa.Index:
 		return pAtom("idx(" + n.Norm(x.X).asAtom() + "," + n.Norm(x.Index).String() + ")")
 	case *ssa.Lookup:
@@ -499,7 +499,7 @@ func (n *Normer) addrPath(v ssa.Value) (root string, path string, ok bool) {
 			return "", "", false
 		}
 		st := x.X.Type().Underlying().(*types.Pointer).Elem().Underlying().(*types.Struct)
-		return r, p + "." + st.Field(x.Field).Name(), true
+		return r, p + "." + fname(st.Field(x.Field)), true
 	case *ssa.IndexAddr:
 		r, p, ok := n.addrPath(x.X)
 		if !ok {
@@ -614,7 +614,7 @@ func (n *Normer) normLoad(addr ssa.Value) Poly {
 				if !ok {
 					break
 				}
-				base += "." + s.Field(f).Name()
+				base += "." + fname(s.Field(f))
 				t = s.Field(f).Type()
 			}
 			return pAtom(base)
